@@ -162,7 +162,7 @@ P_DEFAULT = "http://ex.org/p"
 SEPS = [" ", "\t", "  "]                # between subject / predicate / object
 PRE_DOT = [" ", "", "\t"]               # between the object and the final dot
 COMMENTS = ["", " # c"]                 # trailing comment (after the dot) of the literal sweeps
-ODD_COMMENTS = ["# 100%", "# a^^b", "# \"q\"", "# a@b"]    # trailing comments with literal-like characters (node sweep only)
+ODD_COMMENTS = ["# 100%", "# a^^b", "# \"q\"", "# a@b", "# see <http://ex.org/x> _:b 2"]    # trailing comments with literal-like characters (node sweep only)
 DEFAULT_LAYOUT = (" ", " ", " ", "")
 
 
@@ -456,7 +456,9 @@ def nt_attribute(case, outcome, read):
         if comment == "" or shows((s, p, o, sep1, sep2, sep3, "")):
             layout_cause = by_separators
         elif comment != " # c" and not shows((s, p, o, sep1, sep2, sep3, " # c")):
-            layout_cause = "trailing-comment-scanned-as-literal"
+            # the recorded finding is about the LITERAL scanner running into the comment; a comment that disturbs a line whose
+            # object is an IRI or a blank node is a matter of its own (the scanner must stop at the statement's final dot)
+            layout_cause = "trailing-comment-scanned-as-literal" if o[0] == "L" else "trailing-comment-tokenised"
         elif "dot-glued-to-object" in f:
             layout_cause = "dot-glued-to-object-before-comment"
         else:
